@@ -32,7 +32,7 @@ CFG = {
 }
 # deeper, narrower configurations (run in addition)
 DEEP = {
-    "quick": [dict(MaxLen=7, LeafNames={"n0", "n2", "m", "s", "hz", "sym"}, OpNames={"mul2", "add2", "pow", "min2", "exp"})],
+    "quick": [dict(MaxLen=7, LeafNames={"n0", "n2", "m", "hz", "sym"}, OpNames={"mul2", "add2", "pow", "min2", "exp"})],
     "thorough": [dict(MaxLen=7, LeafNames={"n0", "n2", "nm1", "m", "s", "hz", "sym"},
                       OpNames={"mul2", "add2", "pow", "abs", "min2"}),
                  dict(MaxLen=9, LeafNames={"n2", "m", "s"}, OpNames={"mul2", "add2", "pow"})],
